@@ -99,11 +99,9 @@ def r2(c):
         f_rl = G.And(*[(G.formula(t) if pol else G.Not(G.formula(t))) for t, pol in conds_r])
         c.check("C19.R2", G.equivalent(f_rl, G.And(spec, G.Atom("enable_reload"))), repo.loc(m, rl[0]), "parse_result/reload-guard",
                 f"reload_cmds[file] set under {G.show(f_rl)}; expected (changed ∨ force_reload) ∧ enable_reload", key_text="reload-guard")
-    skips = [n for n in walk_no_nested(inner) if isinstance(n, (ast.Continue, ast.Break, ast.Return))]
-    for n in skips:
-        f = gm.formula(n)
-        names = {x.attr for x in ast.walk(n._parent.test) if isinstance(x, ast.Attribute)} if isinstance(getattr(n, "_parent", None), ast.If) else set()
-        c.check("C19.R2", False, repo.loc(m, n), "parse_result/loop-exit", f"`{norm(n)}` under [{G.show(f)}] leaves the per-file iteration: the decision for a file depends on other files", key_text="loop-exit")
+    # (an early `continue` on "unchanged" is the same decision re-spelled: GuardMap folds its negation into the path condition above)
+    brk = [n for n in walk_no_nested(inner) if isinstance(n, (ast.Break, ast.Return))]
+    c.check("C19.R2", not brk, repo.loc(m, brk[0] if brk else inner), "parse_result/no-break", "the per-file loop stops before all files were decided", key_text="break")
     key_ok = norm(up[0].targets[0].slice) == norm(rl[0].targets[0].slice) and isinstance(inner.target, ast.Tuple) and norm(inner.target.elts[0]) == norm(up[0].targets[0].slice)
     c.check("C19.R2", key_ok, repo.loc(m, up[0]), "parse_result/keys", "upload/reload entries are not keyed by the loop's file", key_text="keys")
     v = rl[0].value
